@@ -4,6 +4,7 @@ import XsdataModel.Conv.Factory
 import XsdataModel.Spec.Xsd
 import XsdataModel.Proofs.IntL
 import XsdataModel.Proofs.Codec
+import XsdataModel.Proofs.SortL
 
 namespace Props.C05
 open Py Xs.Conv Xs.Spec
@@ -25,8 +26,8 @@ theorem bool_accepts (e : Env) (pre post s : Str) (v : Bool)
     unfold XsdBoolean boolLex at h
     simp only [List.mem_cons, Prod.mk.injEq, List.mem_nil_iff, or_false] at h
     rcases h with ⟨rfl, _⟩ | ⟨rfl, _⟩ | ⟨rfl, _⟩ | ⟨rfl, _⟩
-    · exact Or.inr ⟨⟨'t', _, rfl, ns _ (by decide) (by decide)⟩, ⟨"tru".toList, 'e', rfl, ns _ (by decide) (by decide)⟩⟩
-    · exact Or.inr ⟨⟨'f', _, rfl, ns _ (by decide) (by decide)⟩, ⟨"fals".toList, 'e', rfl, ns _ (by decide) (by decide)⟩⟩
+    · exact Or.inr ⟨⟨'t', _, rfl, ns _ (by decide) (by decide)⟩, ⟨['t', 'r', 'u'], 'e', rfl, ns _ (by decide) (by decide)⟩⟩
+    · exact Or.inr ⟨⟨'f', _, rfl, ns _ (by decide) (by decide)⟩, ⟨['f', 'a', 'l', 's'], 'e', rfl, ns _ (by decide) (by decide)⟩⟩
     · exact Or.inr ⟨⟨'1', _, rfl, ns _ (by decide) (by decide)⟩, ⟨[], '1', rfl, ns _ (by decide) (by decide)⟩⟩
     · exact Or.inr ⟨⟨'0', _, rfl, ns _ (by decide) (by decide)⟩, ⟨[], '0', rfl, ns _ (by decide) (by decide)⟩⟩
   unfold boolDeserialize
@@ -153,5 +154,155 @@ theorem b64_rt (e : Env) (bs : Bytes) (h : AllBytes bs) (s' : Str)
   exact ⟨hs, b64_accepts e _ s' bs hv hws⟩
 
 example : AllBytes [0, 255, 65] := by intro b hb; simp at hb; omega
+
+/-! ## candidate lists: `sort_types` and the priority order -/
+
+/-- `sort_types` returns a permutation of its input -/
+theorem sort_types_perm (names : List Str) : (sortTypes names).Perm names := by
+  rw [sortTypes_eq]
+  split
+  · exact List.Perm.refl _
+  · exact List.mergeSort_perm names prioLe
+
+/-- … ordered by the priority table (types without entry first) -/
+theorem sort_types_sorted (names : List Str) :
+    (sortTypes names).Pairwise (fun a b => typePriority a ≤ typePriority b) := by
+  rw [sortTypes_eq]
+  split
+  · exact short_pairwise _ _ ‹_›
+  · exact (List.pairwise_mergeSort prioLe_trans prioLe_total names).imp
+      (by intro a b h; simpa [prioLe] using h)
+
+/-- … and stable: two candidates that are already in priority order keep their relative order -/
+theorem sort_types_stable (names : List Str) (a b : Str)
+    (hab : typePriority a ≤ typePriority b) (h : [a, b].Sublist names) :
+    [a, b].Sublist (sortTypes names) := by
+  rw [sortTypes_eq]
+  split
+  · exact h
+  · exact List.pair_sublist_mergeSort prioLe_trans prioLe_total (by simpa [prioLe] using hab) h
+
+/-- The order in which table types are listed in a union does not matter: two
+candidate lists that are permutations of each other are sorted to the same list. -/
+theorem sort_order_independent (l₁ l₂ : List Ty) (h : l₁.Perm l₂) (ht : ∀ t ∈ l₁, t.inTable = true) :
+    sortTys l₁ = sortTys l₂ := by
+  have hp : (sortTys l₁).Perm (sortTys l₂) := (sortTys_perm l₁).trans (h.trans (sortTys_perm l₂).symm)
+  refine List.Perm.eq_of_pairwise (le := fun a b => a.prio ≤ b.prio) ?_ (sortTys_pairwise l₁)
+    (sortTys_pairwise l₂) hp
+  intro a b ha hb h1 h2
+  have ha' : a ∈ l₁ := (sortTys_perm l₁).subset ha
+  have hb' : b ∈ l₁ := h.symm.subset ((sortTys_perm l₂).subset hb)
+  exact prio_injective a b (ht a ha') (ht b hb') (by omega)
+
+/-- **The documented priority order decides.** For a candidate list of table
+types (int, bool, float, Decimal, XmlTime, XmlDate, XmlDateTime, QName, str) in
+any order: if type `t` accepts the string and every candidate with a smaller
+priority number rejects it, the sorted list yields `t`'s value. -/
+theorem priority_decides (e : CEnv) (s : Str) (kw : Kw) (tys : List Ty) (t : Ty) (a : Atom)
+    (hall : ∀ x ∈ tys, x.inTable = true) (ht : t ∈ tys)
+    (hacc : atomDeserialize e t s kw = some a)
+    (hlow : ∀ x ∈ tys, x.prio < t.prio → atomDeserialize e x s kw = none) :
+    deserialize e s (sortTys tys) kw = some (.atom a) := by
+  have hperm := sortTys_perm tys
+  exact deserializeFrom_sorted e s kw t a (hall t ht) hacc (sortTys tys) 0 (sortTys_pairwise tys)
+    (fun x hx => hall x (hperm.subset hx)) (hperm.symm.subset ht)
+    (fun x hx => hlow x (hperm.subset hx))
+
+/-- if no candidate accepts, the result is `ConverterError` -/
+theorem deserialize_none (e : CEnv) (s : Str) (kw : Kw) (tys : List Ty)
+    (h : ∀ pos, ∀ t ∈ tys, deserializeOne e pos t s kw = none) : deserialize e s tys kw = none := by
+  unfold deserialize
+  generalize 0 = pos
+  induction tys generalizing pos with
+  | nil => rfl
+  | cons t ts ih =>
+    unfold deserializeFrom
+    rw [h pos t (by simp)]
+    exact ih (fun p x hx => h p x (by simp [hx])) (pos + 1)
+
+example : ∀ x ∈ [Ty.str, Ty.float, Ty.int], x.inTable = true := by decide
+
+/-- the priority numbers the documentation promises for the modelled types:
+int < bool < float < Decimal < XmlTime < XmlDate < XmlDateTime < QName < str -/
+theorem priority_order :
+    Ty.int.prio < Ty.bool.prio ∧ Ty.bool.prio < Ty.float.prio ∧ Ty.float.prio < Ty.decimal.prio ∧
+    Ty.decimal.prio < Ty.xmlTime.prio ∧ Ty.xmlTime.prio < Ty.xmlDate.prio ∧
+    Ty.xmlDate.prio < Ty.xmlDateTime.prio ∧ Ty.xmlDateTime.prio < Ty.qname.prio ∧
+    Ty.qname.prio < Ty.str.prio := by decide
+
+/-! ## registry lookup -/
+
+/-- an exactly registered class uses its own converter -/
+theorem type_converter_exact (reg : List Str) (c : Str) (rest : List Str) (h : reg.contains c = true) :
+    typeConverter reg (c :: rest) = some c := by
+  show (if reg.contains c = true then some c else _) = some c
+  rw [if_pos h]
+
+/-- otherwise the nearest registered proper ancestor other than the last MRO entry (`object`) -/
+theorem type_converter_mro (reg : List Str) (c : Str) (rest : List Str) (h : reg.contains c = false) :
+    typeConverter reg (c :: rest) = rest.dropLast.find? (reg.contains ·) := by
+  show (if reg.contains c = true then some c else _) = _
+  rw [if_neg (by rw [h]; decide)]
+
+/-- decision table on the registry as it is in the code now: `bool` is not read as `int`,
+enum classes reach `EnumConverter`, an `IntEnum` reaches `IntConverter` first, the binary
+wrapper classes reach `BytesConverter`, and a plain class has no converter although
+`object` is registered. -/
+theorem registry_decisions :
+    typeConverter Tables.registryTypes [['b','o','o','l'], ['i','n','t'], ['o','b','j','e','c','t']] = some ['b','o','o','l'] ∧
+    typeConverter Tables.registryTypes [['E'], ['E','n','u','m'], ['o','b','j','e','c','t']] = some ['E','n','u','m'] ∧
+    typeConverter Tables.registryTypes [['E'], ['I','n','t','E','n','u','m'], ['i','n','t'], ['R','e','p','r','E','n','u','m'],
+      ['E','n','u','m'], ['o','b','j','e','c','t']] = some ['i','n','t'] ∧
+    typeConverter Tables.registryTypes [['X','m','l','H','e','x','B','i','n','a','r','y'], ['b','y','t','e','s'],
+      ['o','b','j','e','c','t']] = some ['b','y','t','e','s'] ∧
+    typeConverter Tables.registryTypes [['P','l','a','i','n'], ['o','b','j','e','c','t']] = none := by decide
+
+/-! ## `DataType.from_value` for ints -/
+
+/-- `int_datatype` picks the narrowest of xs:short / xs:int / xs:long / xs:integer
+whose value space contains the value (bounds written here as powers of two,
+compared with the constants extracted from the code) -/
+theorem int_datatype_narrowest (v : Int) :
+    intDatatype v =
+      if -(2 ^ 15) ≤ v ∧ v ≤ 2 ^ 15 - 1 then ['s','h','o','r','t']
+      else if -(2 ^ 31) ≤ v ∧ v ≤ 2 ^ 31 - 1 then ['i','n','t']
+      else if -(2 ^ 63) ≤ v ∧ v ≤ 2 ^ 63 - 1 then ['l','o','n','g']
+      else ['i','n','t','e','g','e','r'] := by
+  simp only [intDatatype, Tables.intDatatypeBounds, Tables.intDatatypeCodes, nthCode, List.getD_cons_zero,
+    List.getD_cons_succ, Bool.and_eq_true, decide_eq_true_eq]
+  rfl
+
+/-! ## `test(strict=True)` -/
+
+/-- a strict test on `int` succeeds only for the canonical spelling `str(int(s))` -/
+theorem test_strict_int_sound (e : CEnv) (s : Str) (kw : Kw) (h : test e s [.int] true kw = true) :
+    ∃ i, intDeserialize e.toEnv s = some i ∧ e.strip s = intSerialize i := by
+  simp only [test, deserialize, deserializeFrom, deserializeOne, atomDeserialize] at h
+  cases hd : intDeserialize e.toEnv s with
+  | none => simp [hd] at h
+  | some i =>
+    simp [hd] at h
+    exact ⟨i, rfl, h⟩
+
+/-- a strict test on `Decimal` succeeds only when re-serialising gives the input back -/
+theorem test_strict_decimal_sound (e : CEnv) (s : Str) (kw : Kw) (h : test e s [.decimal] true kw = true) :
+    ∃ d, decimalDeserialize e.toEnv s = some d ∧ e.strip s = decimalSerialize d := by
+  simp only [test, deserialize, deserializeFrom, deserializeOne, atomDeserialize] at h
+  cases hd : decimalDeserialize e.toEnv s with
+  | none => simp [hd] at h
+  | some d =>
+    simp [hd] at h
+    exact ⟨d, rfl, h⟩
+
+/-- `bool` is an `int` subclass, so a strict test rejects the XSD forms `1` and `0` -/
+theorem test_strict_bool_rejects_digits (e : CEnv) (kw : Kw) :
+    test e ['1'] [.bool] true kw = false ∧ test e ['0'] [.bool] true kw = false ∧
+    test e ['1'] [.bool] false kw = true := by
+  have h1 : e.toEnv.strip ['1'] = ['1'] := stripBy_tight _ _ (Or.inr ⟨⟨'1', [], rfl, by
+    rw [isSpace_ascii _ _ (by decide)]; decide⟩, ⟨[], '1', rfl, by rw [isSpace_ascii _ _ (by decide)]; decide⟩⟩)
+  have h0 : e.toEnv.strip ['0'] = ['0'] := stripBy_tight _ _ (Or.inr ⟨⟨'0', [], rfl, by
+    rw [isSpace_ascii _ _ (by decide)]; decide⟩, ⟨[], '0', rfl, by rw [isSpace_ascii _ _ (by decide)]; decide⟩⟩)
+  simp only [test, deserialize, deserializeFrom, deserializeOne, atomDeserialize, boolDeserialize, h1, h0]
+  decide
 
 end Props.C05
